@@ -37,7 +37,7 @@
  *   am <tag> <src> <opid> <len> <ok> <pseq> <seq>   user AM delivered: opid = index of the send in the sender's script,
  *                                  ok = bytes identical to what was sent, pseq = how many receives of this tag were started
  *                                  before the one that got the message, seq = how many AMs the sender had sent on (tag, dst) before
- *   pl <id> <remote> | pr <id> <src> <len> <ok> | gl <id> <remote> <ok> | gr <id> <src>   one-sided callbacks
+ *   pl <id> <remote> | pr <id> <src> <len> <ok> | gl <id> <remote> <ok> | gr <id>   one-sided callbacks
  *   F <names>                      final request array
  *   end <status>                   ok | TIMEOUT ... | ...
  */
@@ -133,9 +133,18 @@ int MPI_Startall(int n, MPI_Request reqs[]) {
     if (tracing) for (int i = 0; i < n; i++) posted(reqs[i]);
     return PMPI_Startall(n, reqs);
 }
+/* Open MPI hands out one shared, already completed request for every send it could push inline; two live
+ * sends must have two handles for the recording, so a duplicate is replaced by a completed generalized request */
+static int gq_query(void *x, MPI_Status *st) { (void)x; PMPI_Status_set_elements(st, MPI_BYTE, 0); PMPI_Status_set_cancelled(st, 0);
+                                               st->MPI_SOURCE = MPI_UNDEFINED; st->MPI_TAG = MPI_UNDEFINED; return MPI_SUCCESS; }
+static int gq_free(void *x) { (void)x; return MPI_SUCCESS; }
+static int gq_cancel(void *x, int c) { (void)x; (void)c; return MPI_SUCCESS; }
 int MPI_Isend(const void *buf, int count, MPI_Datatype dt, int dst, int tag, MPI_Comm comm, MPI_Request *req) {
     int rc = PMPI_Isend(buf, count, dt, dst, tag, comm, req);
-    if (tracing) dyn_add(*req, 's', nisend++);
+    if (tracing) {
+        for (int k = 0; k < ndyn; k++) if (dyn[k].h == *req) { PMPI_Grequest_start(gq_query, gq_free, gq_cancel, NULL, req); PMPI_Grequest_complete(*req); break; }
+        dyn_add(*req, 's', nisend++);
+    }
     return rc;
 }
 int MPI_Irecv(void *buf, int count, MPI_Datatype dt, int src, int tag, MPI_Comm comm, MPI_Request *req) {
@@ -250,7 +259,8 @@ static int get_r_cb(parsec_comm_engine_t *e, parsec_ce_tag_t tag, void *msg, siz
     (void)e; (void)tag; (void)cb_data; (void)msg_size;
     L("c\n");
     int id = -1; memcpy(&id, msg, sizeof id);
-    L("gr %d %d\n", id, src); got_gr++; records++;
+    (void)src;   /* the status of a completed send carries no source: the engine passes an undefined value here */
+    L("gr %d\n", id); got_gr++; records++;
     run_deferred_one();
     L("e\n");
     return 1;
